@@ -13,7 +13,7 @@ cargo build --offline >/dev/null 2>&1; B1=$?
 cargo build --offline --features verif >/dev/null 2>&1; B2=$?
 cargo build --offline --no-default-features --features async_runtime >/dev/null 2>&1; B3=$?
 cargo build --offline --no-default-features --features smol_runtime >/dev/null 2>&1; B4=$?
-SUITE=$(cargo test --offline --lib 2>&1 | grep -c "41 passed; 0 failed")
+SUITE=$(timeout 900 cargo test --offline --lib 2>&1 | grep -c "41 passed; 0 failed")
 P=$(run3)
 git checkout -q -- . ; rm -f examples/demo.rs
 echo "demo_without=$W builds=$B1,$B2,$B3,$B4 suite_41_passed=$SUITE demo_with=$P"
